@@ -353,8 +353,31 @@ def observe(case):
         ignore["DEFINE"] = "*"
     if c["ign"][3]:
         ignore["VALUETABLES"] = True
-    ab = canmatrix.compare.compare_db(build(c["a"]), build(c["b"]), ignore)
-    ba = canmatrix.compare.compare_db(build(c["b"]), build(c["a"]), ignore)
+    def built(which):
+        """the matrix as described; a matrix that lost a frame compared with the other one is built with that frame and loses it
+        through the API (del_frame / remove_frame), as an edited matrix does"""
+        me, other = c[which], c["b" if which == "a" else "a"]
+        mine = {f["name"] for f in me["frames"]}
+        extra = [f for f in other["frames"] if f["name"] not in mine]
+        if c["edit"] in ("frame.del", "frame.add", "frame.add-twin") and len(extra) == 1 and len(other["frames"]) == len(me["frames"]) + 1:
+            db = build(other if c["edit"] != "frame.del" or which == "b" else me)
+            if {f.name for f in db.frames} != mine:
+                victim = db.frame_by_name(extra[0]["name"])
+                if len(extra[0]["name"]) % 2:
+                    db.del_frame(victim)
+                else:
+                    db.remove_frame(victim)
+            # everything but the frame list is the described matrix's own
+            ref = build(me)
+            if [f.name for f in db.frames] == [f.name for f in ref.frames]:
+                ref.frames = db.frames
+                ref.frames_dict_name = db.frames_dict_name
+                ref.frames_dict_id = db.frames_dict_id
+                ref._frames_dict_id_extend = dict(getattr(db, "_frames_dict_id_extend", {}))
+                return ref
+        return build(me)
+    ab = canmatrix.compare.compare_db(built("a"), built("b"), ignore)
+    ba = canmatrix.compare.compare_db(built("b"), built("a"), ignore)
     return {"ab": tree(ab), "ba": tree(ba)}
 
 
